@@ -206,7 +206,7 @@ func (g *gen) setup() {
 	g.op(fmt.Sprintf("cfg\trefreshScopes=%s\tscope=%s\taud=%s\tcodeLife=%d\tatLife=%d\trtLife=%d\tpkce=%s\tpkcePublic=%s\tplain=%s\tnoRtIntrospect=%s\tdeviceLife=%d\tparLife=%d\tenforcePAR=%s\tdevMark=%s",
 		encListS(refreshScopes), scopeStrat, audStrat, codeLife, atLife, rtLife, g.cfg["pkce"], g.cfg["pkcePublic"], g.cfg["plain"], b01(r.Intn(5) == 0),
 		deviceLife, parLife, b01(g.cfgPAR), b01(r.Intn(2) == 0 || (g.bias == "C16" && r.Intn(3) != 0)))+
-		"\ttx="+b01(r.Intn(4) == 0 || (g.bias == "C18" && r.Intn(3) != 0)))
+		"\ttx="+b01(g.bias != "C19" && (r.Intn(4) == 0 || (g.bias == "C18" && r.Intn(3) != 0)))) // (no transactions under `par`: a snapshot store has no meaning for interleaved requests)
 	allScopes := []string{"offline", "openid", "a", "b.c", "rt", "offline_access"}
 	if scopeStrat == "wildcard" {
 		allScopes = append(allScopes, "b.*")
@@ -568,6 +568,122 @@ func (g *gen) recentToken() string {
 	return g.anyToken()
 }
 
+// ---- C19: operations interleaved at storage-call granularity (op "par") ----
+
+func redeemLine(gr *gGrant) string {
+	return fmt.Sprintf("redeem\t%s\t1\t%s\t%s\t%s\t\t", gr.client, gr.code, gr.redirect, gr.verifier)
+}
+
+func refreshLine(gr *gGrant, tok string) string {
+	return fmt.Sprintf("refresh\t%s\t1\t%s\t\t", gr.client, tok)
+}
+
+// concurrent runs two or three operations on overlapping credentials under a schedule: a random word over the
+// thread indices, the alternating schedule, or one request entirely before the other.
+func (g *gen) concurrent() {
+	r := g.r
+	var pending, live []*gGrant
+	for _, gr := range g.grants {
+		if gr.code != "" && !gr.redeemed {
+			pending = append(pending, gr)
+		}
+		if len(gr.rts) > 0 {
+			live = append(live, gr)
+		}
+	}
+	var ops []string
+	var owners []*gGrant // grant whose tokens an operation may return (nil: none)
+	add := func(l string, gr *gGrant) { ops = append(ops, l); owners = append(owners, gr) }
+	switch x := r.Intn(10); {
+	case x < 3 && len(pending) > 0: // the same code twice (and an onlooker)
+		gr := pending[r.Intn(len(pending))]
+		add(redeemLine(gr), gr)
+		add(redeemLine(gr), gr)
+		if r.Intn(3) == 0 && len(gr.ats)+len(g.tokens) > 0 {
+			add(fmt.Sprintf("introspect\t%s\t\t", g.recentToken()), nil)
+		}
+	case x < 6 && len(live) > 0: // the same refresh token twice / against a revocation / against introspection
+		gr := live[r.Intn(len(live))]
+		rt := gr.rts[len(gr.rts)-1]
+		add(refreshLine(gr, rt), gr)
+		switch r.Intn(4) {
+		case 0:
+			add(refreshLine(gr, rt), gr)
+		case 1:
+			add(fmt.Sprintf("revoke\t%s\t1\t%s\t%s", gr.client, rt, []string{"", "refresh_token"}[r.Intn(2)]), nil)
+		case 2:
+			if len(gr.ats) > 0 {
+				add(fmt.Sprintf("revoke\t%s\t1\t%s\t", gr.client, gr.ats[len(gr.ats)-1]), nil)
+			} else {
+				add(refreshLine(gr, rt), gr)
+			}
+		default:
+			add(fmt.Sprintf("introspect\t%s\t\t", rt), nil)
+			if len(gr.rts) > 1 {
+				add(refreshLine(gr, gr.rts[0]), gr) // replay of an old generation in the middle of it
+			}
+		}
+	case x < 7 && len(live) > 1: // unrelated grants
+		a, b := live[r.Intn(len(live))], live[r.Intn(len(live))]
+		add(refreshLine(a, a.rts[len(a.rts)-1]), a)
+		add(refreshLine(b, b.rts[len(b.rts)-1]), b)
+	case x < 8: // one device code polled twice
+		for _, d := range g.devices {
+			if d.decided && d.gr == nil {
+				l := fmt.Sprintf("devicePoll\t%s\t1\t%s", d.client, d.name)
+				d.gr = &gGrant{client: d.client, redeemed: true}
+				g.grants = append(g.grants, d.gr)
+				add(l, d.gr)
+				add(l, d.gr)
+				break
+			}
+		}
+	case x < 9: // one request_uri used twice
+		for _, p := range g.pars {
+			if !p.used {
+				l := fmt.Sprintf("authorizePar\t%s\t%s\t\t%s\t\talice", p.client, p.name, encListS(p.gs))
+				p.used = true
+				add(l, nil)
+				add(l, nil)
+				break
+			}
+		}
+	}
+	if len(ops) < 2 {
+		return
+	}
+	n := len(ops)
+	var sched []string
+	switch r.Intn(4) {
+	case 0: // alternating
+		for k := 0; k < 40; k++ {
+			sched = append(sched, fmt.Sprint(k%n))
+		}
+	case 1: // one after the other (some order)
+		first := r.Intn(n)
+		for k := 0; k < 20; k++ {
+			sched = append(sched, fmt.Sprint(first))
+		}
+	default:
+		for k := 0; k < 10+r.Intn(30); k++ {
+			sched = append(sched, fmt.Sprint(r.Intn(n)))
+		}
+	}
+	for i := range ops {
+		ops[i] = strings.ReplaceAll(ops[i], "\t", parSep)
+	}
+	obs := g.op("par\t" + encListS(sched) + "\t" + strings.Join(ops, "\t"))
+	// bookkeeping: tokens handed out by the threads
+	out := strings.SplitN(obs, " || ", 2)[0]
+	for i, o := range strings.Split(strings.TrimPrefix(out, "par "), " ;; ") {
+		if i < len(owners) && owners[i] != nil {
+			if g.noteTokens(owners[i], o) && strings.HasPrefix(ops[i], "redeem") {
+				owners[i].redeemed = true
+			}
+		}
+	}
+}
+
 func (g *gen) sweep() {
 	for _, t := range g.tokens {
 		if t[0] == 'C' {
@@ -801,6 +917,10 @@ func (g *gen) History(n int) {
 		}
 		if g.bias == "C17" && r.Intn(3) == 0 {
 			x = 112 // PAR flows dominate
+		}
+		if g.bias == "C19" && r.Intn(4) == 0 && g.steps > 6 {
+			g.concurrent()
+			continue
 		}
 		if g.bias == "C18" && r.Intn(5) == 0 {
 			x = []int{106, 112, 100}[r.Intn(3)] // device, PAR and direct grants get their share of faults
